@@ -34,8 +34,10 @@ def run(prop, tier, seed, replay=None):
             log("[%s] LockOrder %d processes: %d states, no deadlock" % (prop, n, st["distinct"]))
         n = NCPU
         files = [sc.path("lp%d" % i) for i in range(n)]
+        # (the state tracer is on in these processes: the registries as they are under their locks at every change and the
+        # message counters drawn, in the probes and in the free-running rounds, are validated by SuiteTrace below)
         pmap(lambda i: run_harness(["lock-probe", "-topo", sc.path("topo.json"), "-out", files[i], "-shard", str(i), "-shards", str(n), "-seed", str(seed),
-                                    "-stress", "2" if quick else "25"], timeout=3000), list(range(n)))
+                                    "-stress", "2" if quick else "25"], timeout=3000, env={"VERIF_SUITE_TRACE": files[i] + ".st"}), list(range(n)))
         tf = sc.path("all")
         with open(tf, "w") as f:
             for x in files:
@@ -73,6 +75,10 @@ def run(prop, tier, seed, replay=None):
         pr = pairs.execute(prop, tier, seed, sc, topo, kinds="disconnect,entrem")
         viol += pr["viol"]
         cov["pair_probes"] = pr["cov"]
+        import glob, suite
+        sr = suite.execute(prop, sc, [(f, None) for x in files for f in glob.glob(x + ".st.*")])
+        viol += sr["viol"]
+        cov["suite_trace"] = sr["cov"]
         write_evidence(prop, tier, seed, "exploration", cov, ASSUME, time.time() - t0, viol)
         log("[%s] %s: %d probes (%d parked, %d with the other operation blocked meanwhile), %d stress rounds, %d bad, %.1fs" % (prop, tier, stat["lines"] - stat["stress"], stat["parked"], stat["blocked"], stat["stress"], len(bad), time.time() - t0))
         return 1 if viol else 0
